@@ -13,13 +13,16 @@ def subsets(Q):
             yield set(c)
 
 
-def check_dfa(acc, spec, L, scheme='s', morph=False):
+def check_dfa(acc, spec, L, scheme='s', morph=False, letters='ab'):
     from gambatools.dfa_algorithms import dfa_accepts_word
-    rp = {'fn': 'mc.props.c01:one_dfa', 'mode': 'plain', 'params': {'spec': spec, 'L': L, 'scheme': scheme}}
+    rp = {'fn': 'mc.props.c01:one_dfa', 'mode': 'plain', 'params': {'spec': spec, 'L': L, 'scheme': scheme, 'letters': letters}}
     if morph:
         rp = {'fn': 'mc.props.c01:t_morph', 'mode': 'plain', 'params': dict(acc.data.get('ctx', {}), upto=spec)}
-    Q, Sg, delta, q0, F = spaces.dfa_parts(spec, scheme)
-    ok, D = core.lib_call(acc, 'DFA()', spec, spaces.morph_dfa if morph else spaces.build_dfa, spec, scheme, repro=rp)
+    Q, Sg, delta, q0, F = spaces.dfa_parts(spec, scheme, letters)
+    if morph:
+        ok, D = core.lib_call(acc, 'DFA()', spec, spaces.morph_dfa, spec, scheme, repro=rp)
+    else:
+        ok, D = core.lib_call(acc, 'DFA()', spec, spaces.build_dfa, spec, scheme, letters, repro=rp)
     if not ok:
         return
     A = fa.from_dfa_parts(Q, Sg, delta, q0, F)
@@ -103,8 +106,8 @@ def check_nfa(acc, spec, L, scheme='s', eps='', enc='sparse', closures=True, mor
         acc.sample({'kind': 'NFA', 'Q': Q, 'Sigma': Sg, 'transitions': ['{} -{}-> {}'.format(p, a or "''", q) for (p, a, q) in T], 'q0': q0, 'F': F, 'epsilon': eps, 'delta_encoding': enc, 'words_up_to': L, 'accepted_words': nacc, 'tested_words': nw})
 
 
-def one_dfa(acc, spec, L, scheme='s'):
-    check_dfa(acc, spec, L, scheme)
+def one_dfa(acc, spec, L, scheme='s', letters='ab'):
+    check_dfa(acc, spec, L, scheme, letters=letters)
 
 
 def one_nfa(acc, spec, L, scheme='s', eps='', enc='sparse', closures=True, letters='ab'):
@@ -136,9 +139,68 @@ def t_morph(acc, kind, space, L, shard, nshard, upto=None):
 
 
 # ------------------------------------------------------------------ tasks
-def t_dfa(acc, n, k, L, shard, nshard, scheme='s'):
-    for idx in range(shard, spaces.dfa_size(n, k), nshard):
-        check_dfa(acc, spaces.dfa_spec(n, k, idx), L, scheme)
+def t_dfa(acc, n, k, L, shard, nshard, scheme='s', letters='ab', stride=1, offset=0):
+    for idx in range(offset + shard * stride, spaces.dfa_size(n, k), nshard * stride):
+        check_dfa(acc, spaces.dfa_spec(n, k, idx), L, scheme, letters=letters)
+
+
+def t_deep(acc, n):
+    """Thin deep family: automata whose runs / closures are far longer than any fixed iteration guard or the
+    interpreter's recursion limit (n states on one path)."""
+    from collections import defaultdict
+    from gambatools.dfa import DFA
+    from gambatools.nfa import NFA
+    from gambatools.dfa_algorithms import dfa_accepts_word
+    from gambatools.nfa_algorithms import nfa_accepts_word, epsilon_closure
+    rp = {'fn': 'mc.props.c01:t_deep', 'mode': 'plain', 'params': {'n': n}}
+    Q = ['d%d' % i for i in range(n)]
+    # (1) DFA: one path of n states, the last one absorbing and accepting
+    D = DFA(set(Q), {'a'}, {(Q[i], 'a'): Q[min(i + 1, n - 1)] for i in range(n)}, Q[0], {Q[-1]})
+    acc.states += 1
+    for m, exp in ((n - 2, False), (n - 1, True), (n + 5, True)):
+        inst = {'dfa': 'path of %d states, last accepting' % n, 'word': 'a^%d' % m}
+        ok, got = core.lib_call(acc, 'dfa_accepts_word', inst, dfa_accepts_word, D, 'a' * m, repro=rp)
+        acc.transitions += 1
+        if ok:
+            acc.evals += 1
+            acc.validated += 1
+            if got is not exp:
+                acc.viol('dfa_accepts_word', 'verdict differs from existence of an accepting run', inst, repro=rp, observed=got, expected=exp)
+    # (2) NFA: epsilon chain of n states; (3) epsilon fan: d0 -e-> m_i -e-> l_i (2 * (n // 2) + 1 states in the closure)
+    chain = [(Q[i], '', Q[i + 1]) for i in range(n - 1)] + [(Q[-1], 'a', Q[-1])]
+    h = n // 2
+    M = ['m%d' % i for i in range(h)]
+    Lf = ['l%d' % i for i in range(h)]
+    fan = [('d0', '', m) for m in M] + [(m, '', l) for m, l in zip(M, Lf)] + [(Lf[-1], 'a', 'd0')]
+    for name, QQ, T, F in (('epsilon chain of %d states' % n, Q, chain, [Q[-1]]), ('epsilon fan with %d leaves' % h, ['d0'] + M + Lf, fan, [Lf[-1]]), ('epsilon fan with %d leaves' % h, ['d0'] + M + Lf, fan, [Lf[0]])):
+        delta = defaultdict(set)
+        for (p_, a, q) in T:
+            delta[p_, a].add(q)
+        inst = {'nfa': name, 'F': F}
+        ok, N = core.lib_call(acc, 'NFA()', inst, NFA, set(QQ), {'a'}, delta, 'd0', set(F), '', repro=rp)
+        if not ok:
+            continue
+        A = fa.from_parts(QQ, ['a'], T, 'd0', F, '')
+        acc.states += 1
+        acc.nontrivial += 1
+        for w in ('', 'a', 'aa'):
+            ok, got = core.lib_call(acc, 'nfa_accepts_word', dict(inst, word=w), nfa_accepts_word, N, w, repro=rp)
+            acc.transitions += 1
+            if ok:
+                acc.evals += 1
+                acc.validated += 1
+                exp = fa.accepts(A, w)
+                if got is not exp:
+                    acc.viol('nfa_accepts_word', 'verdict differs from existence of an accepting run', dict(inst, word=w), repro=rp, observed=got, expected=exp)
+        for q in ('d0', QQ[len(QQ) // 2]):
+            ok, got = core.lib_call(acc, 'epsilon_closure', dict(inst, arg=q), epsilon_closure, N, q, repro=rp)
+            acc.transitions += 1
+            if ok:
+                acc.evals += 1
+                exp = fa.eclose(A, {q})
+                if not isinstance(got, (set, frozenset)) or set(got) != exp:
+                    acc.viol('epsilon_closure', 'closure of a state differs from epsilon reachability', dict(inst, arg=q), repro=rp, observed='%d states' % len(got), expected='%d states' % len(exp))
+        acc.mx('max_closure_size', len(fa.eclose(A, {'d0'})))
 
 
 def _nfa_space(name):
@@ -192,9 +254,9 @@ SPARSE = [('s', '', 'sparse')]
 def plan(tier, seed):
     tasks = []
 
-    def dfa(n, k, L, nshard=1):
+    def dfa(n, k, L, nshard=1, **kw):
         for s in range(nshard):
-            tasks.append(('plain', 'mc.props.c01:t_dfa', {'n': n, 'k': k, 'L': L, 'shard': s, 'nshard': nshard}))
+            tasks.append(('plain', 'mc.props.c01:t_dfa', dict({'n': n, 'k': k, 'L': L, 'shard': s, 'nshard': nshard}, **kw)))
 
     def nfa(space, L, variants, nshard, closures=True):
         for s in range(nshard):
@@ -225,6 +287,24 @@ def plan(tier, seed):
     nfa(('nfa', 3, 1, 3, False), 4, [('d', '', 'sparse', '01')], 4)
     nfa(('rot', 5), 6, SPARSE, 1, closures=False)
     nfa(('rot', 6), 7, SPARSE, 2, closures=False)
+    # wave 5: further presentations of the small spaces
+    tasks.insert(0, ('plain', 'mc.props.c01:t_deep', {'n': 1300 if tier == 'quick' else 2600}))
+    EXTRA = [('s', 'ba', 'sparse'), ('s', 'eps', 'sparse', 'eps'), ('u', '', 'sparse', 'gr'), ('g', '_', 'sparse'), ('K', 'ε', 'sparse')]
+    nfa(('nfa', 1, 2, None, False), 4, EXTRA, 1)
+    nfa(('nfa', 2, 1, None, False), 4, EXTRA, 4)
+    nfa(('nfa', 2, 2, 3, False), 3, EXTRA[:3], 8)
+    nfa(('nfa', 3, 1, 3, False), 3, EXTRA[2:], 4)
+    nfa(('nfa', 1, 5, None, False), 2, [('s', '', 'sparse', 'w')], 1)
+    nfa(('nfa', 1, 7, None, False), 1, [('s', '', 'sparse', 'w')], 1)
+    nfa(('nfa', 2, 5, 2, False), 2, [('s', '', 'sparse', 'w'), ('s', '_', 'total', 'w')], 4)
+    nfa(('nfa', 2, 6, 2, True), 2, [('s', '', 'sparse', 'w')], 2)
+    for k_ in (5, 6, 7):
+        dfa(1, k_, 2, 1, letters='w')
+    dfa(2, 5, 2, 4, letters='w')
+    dfa(2, 6, 2, 4, letters='w', stride=8, offset=seed % 8)
+    dfa(2, 2, 4, 1, scheme='u', letters='gr')
+    dfa(2, 2, 4, 1, scheme='g')
+    dfa(3, 1, 4, 1, scheme='u')
     if tier == 'quick':
         nfa(('nfa', 2, 2, 4, False), 4, ALL_VARIANTS, 8)
         nfa(('nfa', 2, 2, None, False), 3, SPARSE, 16)
@@ -241,14 +321,21 @@ def plan(tier, seed):
         bounds = {'DFA': 'n<=2,k<=2 L<=8; (3,1) L<=6; (3,2) L<=4; (4,1) L<=6', 'NFA': '(1,k),(2,1),(2,2) all x 3 eps x 3 encodings L<=4/5; (3,1,t<=4) 2 variants; (3,2,t<=3); (4,1,t<=4); eps-chains n=4..6'}
     from mc.props import common
     small = lambda name, p: name.endswith('t_nfa') and (p['space'][0] == 'chain' or (p['space'][0] == 'nfa' and p['space'][1] <= 2 and p['space'][2] == 1) or (p['space'][0] == 'nfa' and p['space'][1] == 3 and p['space'][2] == 1 and p['space'][3] == 4 and p['shard'] % 4 == 0))
-    tasks = tasks + common.ordered_copies(tasks, small)
+    base = list(tasks)
+    tasks = tasks + common.ordered_copies(base, small)
+    tiny = lambda name, p: (name.endswith('t_nfa') and p['variants'] == SPARSE and p['space'] in (('chain', 4), ('nfa', 2, 1, None, False))) or (name.endswith('t_dfa') and (p['n'], p['k']) in ((2, 2), (1, 5)) and 'scheme' not in p)
+    tasks = tasks + common.ordered_copies(base, tiny, orders=common.OBJ_ORDERS)
+    pres = lambda name, p: (name.endswith('t_nfa') and p['space'] in (('nfa', 2, 1, None, False), ('nfa', 2, 2, 3, False), ('nfa', 3, 1, 3, False), ('chain', 5)) and p['variants'][0][:3] in (('s', '', 'sparse'), ('d', '', 'sparse'))) or (name.endswith('t_dfa') and (p['n'], p['k']) in ((2, 2), (3, 2), (2, 5)))
+    for kn in ({'dorder': 'aq'}, {'dorder': 'rev', 'shared': True}):
+        tasks = tasks + common.knob_copies(base, pres, kn)
     return {
         'tasks': tasks,
         'rule': 'every labelled DFA/NFA inside the bounds x every word up to L; an NFA counts once per (automaton, epsilon spelling, delta encoding); non-trivial = accepts some but not all tested words',
         'bounds': bounds,
         'exhaustive': True,
         'assumptions': ['NFA delta is a total function into P(Q): defaultdict or a dict defined on all of Q x (Sigma+eps) (doc/main.tex)',
-                        'single-character symbols; epsilon spelled \'\', _ or ε',
+                        'single-character input symbols; epsilon spelled \'\', _, ε, or a multi-character name made of input letters (ba, eps)',
+                        'wave 5: alphabets of 5-7 letters (CPython orders such a set and its copy differently), names with non-decimal digit characters / outside latin-1 / generated-looking (start, start2) / keywords in another case, transition dicts filled letter-major and reversed, equal target sets shared as one object, per-object set-order policies on the tiny spaces, one path / epsilon chain / epsilon fan of 1300 (thorough: 2600) states',
                         'small spaces are presented a second time through ONE live object whose fields are rewritten in place between instances (detects per-object caches)',
                         'the variants (all q0, all F) of one transition structure run back to back in one worker; the same table is also read with b as a letter and with b as the epsilon symbol',
                         'the small NFA spaces and the epsilon chains are executed a second and third time under the canonical and the reversed global set order (instrumented), names include digit / substring / keyword-like schemes'],
